@@ -46,7 +46,7 @@ theorem takeWhile_all (p : Cp → Bool) : ∀ (l : Str) (x : Cp), x ∈ l.takeWh
       rcases hx with rfl | hx
       · exact ha
       · exact ih x hx
-    · simp [List.takeWhile_cons, ha] at hx
+    · simp [ha] at hx
 
 theorem dropWhile_nil_all (p : Cp → Bool) : ∀ (l : Str), l.dropWhile p = [] → ∀ x ∈ l, p x = true := by
   intro l
@@ -60,7 +60,7 @@ theorem dropWhile_nil_all (p : Cp → Bool) : ∀ (l : Str), l.dropWhile p = [] 
       rcases hx with rfl | hx
       · exact ha
       · exact ih h x hx
-    · simp [List.dropWhile_cons, ha] at h
+    · simp [ha] at h
 
 theorem dropWhile_head (p : Cp → Bool) : ∀ (l : Str) (c : Cp) (r : Str), l.dropWhile p = c :: r → p c = false := by
   intro l
